@@ -34,3 +34,25 @@ func quoted(body []byte) []byte {
 	b = append(b, body...)
 	return append(b, '"')
 }
+
+// tokenSyms: the tokens of the grammar, one of each kind, and a space
+var tokenSyms = []string{"{", "}", "[", "]", ",", ":", "1", `"a"`, "null", "true", " "}
+
+// tokenSeqs calls fn with every sequence of up to maxLen tokens (most are ill-formed documents: values
+// in key position, missing or doubled separators, unbalanced brackets) and returns how many there were.
+func tokenSeqs(maxLen int, fn func(doc []byte)) int {
+	n := 0
+	var rec func(p []byte, l int)
+	rec = func(p []byte, l int) {
+		fn(p)
+		n++
+		if l == maxLen {
+			return
+		}
+		for _, t := range tokenSyms {
+			rec(append(p[:len(p):len(p)], t...), l+1)
+		}
+	}
+	rec([]byte{}, 0)
+	return n
+}
